@@ -44,6 +44,24 @@ def parseFrame (w : String) : Ev :=
   else if w == "x:lifetime" then .disconnect .lifetime
   else .disconnect .serverKill
 
+/-- specification of a connection that carries both callbacks: every invalidation push reaches the
+    option-level callback, and the dedicated hook while it is installed; the loss of the connection
+    gives one nil to each installed callback -/
+def specBoth (evs : List Ev) : List InvArg × List InvArg :=
+  let r := evs.foldl (fun (acc : List InvArg × List InvArg × Bool × Bool) e =>
+    let (o, h, inst, alive) := acc
+    if !alive then acc else
+    match e with
+    | .frame (.push vs) =>
+      match invArg vs with
+      | some a => (o ++ [a], if inst then h ++ [a] else h, inst, alive)
+      | none => acc
+    | .frame (.reply _) => acc
+    | .setHook inv => (o, h, inv, alive)
+    | .clearHook => (o, h, false, alive)
+    | .disconnect _ => (o ++ [none], if inst then h ++ [none] else h, false, false)) ([], [], false, true)
+  (r.1, r.2.1)
+
 structure DSt where
   cfg : Cfg := ⟨false, false⟩
   st : St := {}
@@ -55,6 +73,18 @@ def step (d : DSt) (ws : List String) : DSt × String :=
   | ["clear"] => ({ d with st := (Inval.step d.cfg d.st .clearHook).1 }, "ok")
   | ["push"] => (d, showCalls (Inval.step d.cfg d.st (.frame (.push []))).2)
   | ["push", w] => (d, showCalls (Inval.step d.cfg d.st (.frame (.push (parsePush w)))).2)
+  | ["!push"] => (d, "-")
+  | ["!push", w] =>
+    -- specification: every installed callback gets the argument of an invalidation push
+    (d, match invArg (parsePush w) with
+      | none => "-"
+      | some a => showCalls ((if d.cfg.optCb then [Call.opt a] else []) ++ (if d.st.hookInv then [Call.hook a] else [])))
+  | "e2eboth" :: frames =>
+    let cs := run ⟨false, true⟩ {} (frames.map parseFrame)
+    (d, "opt=" ++ showArgs (optLog cs) ++ " hook=" ++ showArgs (hookLog cs))
+  | "!e2eboth" :: frames =>
+    let (o, h) := specBoth (frames.map parseFrame)
+    (d, "opt=" ++ showArgs o ++ " hook=" ++ showArgs h)
   | "e2e" :: o :: frames =>
     -- model: what the option-level callback saw
     let cfg : Cfg := ⟨false, kv o == "1"⟩
